@@ -14,7 +14,6 @@ Kramer Harrison, 2023
 import math
 import numpy as np
 import matplotlib.pyplot as plt
-from scipy.optimize import least_squares
 
 
 class ZernikeStandard:
@@ -473,6 +472,14 @@ class ZernikeFit:
         """
         Fits the Zernike coefficients by minimizing the objective function.
         """
-        initial_guess = [0 for _ in range(self.num_terms)]
-        result = least_squares(self._objective, initial_guess)
-        self.zernike.coeffs = result.x
+        # the model is linear in the coefficients: solve the least-squares
+        # problem directly (an iterative solver started at zero stops on
+        # absolute tolerances, so the result was not linear in the data)
+        r = np.ravel(self.radius)
+        phi = np.ravel(self.phi)
+        self.zernike.coeffs = [1.0 for _ in range(self.num_terms)]
+        basis = np.array([np.broadcast_to(term, r.shape)
+                          for term in self.zernike.terms(r, phi)],
+                         dtype=float).T
+        self.zernike.coeffs = np.linalg.lstsq(basis, np.ravel(self.z),
+                                              rcond=None)[0]
